@@ -408,6 +408,7 @@ def judge (mode : Nat) (kv : KV) : Verdict :=
         | some b => setGhost initB { id := b.id, disk := some (if (str st0.msg).contains "[r]" then b.text else []), text := b.text,
                                      row := st0.xrow, dirty := b.dirty, histU := b.histU, histN := b.histN, savedAt := some b.histU }
         | none => initB
+      let noSe := items.all (fun it => match it with | Item.cmd ln _ => !(cmdName ln).startsWith "se" | _ => true)
       let (_, j06, e14, jb, _, j04) := (items.zip rest).foldl
         (fun (acc : Step × J06 × List String × JB × Bytes × J04) (x : Item × String) =>
           let (prev, j06, e14, jb, lastPat, j04) := acc
@@ -419,7 +420,15 @@ def judge (mode : Nat) (kv : KV) : Verdict :=
             | some next =>
               let j06' := if mode == 6 then judge06Step j06 prev next ln txt icase else j06
               let (e, lp) := if mode == 14 then judge14Step prev next ln icase lastPat
-                             else if mode == 16 then (judge16Step prev next ln txt, lastPat) else ([], lastPat)
+                             else if mode == 16 then
+                               -- the substitute reference reads patterns and lines as code points: an operator binds to
+                               -- the preceding *character*, a match starts and ends on characters (scripts that
+                               -- change `ic` are judged for validity only)
+                               let (e14', lp) := if noSe then judge14Step prev next ln icase lastPat else ([], lastPat)
+                               -- word boundaries judged on the suffix are the recorded finding of C13 / C14, not a matter of
+                               -- character arithmetic
+                               (judge16Step prev next ln txt ++ e14'.filter (fun e => !(e.splitOn "cause=match_judged_on_suffix").length ≥ 2), lp)
+                             else ([], lastPat)
               let jb' := if mode == 2 || mode == 3 || mode == 20 then judgeBufStep mode jb prev next ln txt else jb
               let j04' := if mode == 4 then judge04Step j04 prev next ln else j04
               (next, j06', e14 ++ e, jb', lp, j04'))
